@@ -358,3 +358,19 @@ func H_C16_bindings() {
 	vAssert(err == nil && astEqual(got.(Expression), q), "a rendered quantifier parses back to itself (binding mode and names)")
 	vCover("reached")
 }
+
+// H_C16_redundant_parens: many redundant pairs around one node still give the node back.
+func H_C16_redundant_parens() {
+	n := 1 + vChoose(6)
+	if vTier() > 0 {
+		n = 1 + vChoose(7)
+	}
+	a, as := fixedLeaf(0)
+	text := as
+	for i := 0; i < n; i++ {
+		text = "(" + text + ")"
+	}
+	got, err := Parse("", []byte(text))
+	vAssert(err == nil && astEqual(got.(Expression), a), text+": redundant parentheses do not change the tree")
+	vCover("reached")
+}
